@@ -39,6 +39,14 @@ CHECKS = {
    text="XzMulti.tla (consistent with XzFormat.ValidFile, checked as an invariant) generates every file shape within the bounds: leading padding {0,4}, 1-2 catalogue streams with all paddings 0..16, longer lists with boundary paddings, trailing garbage, each with the predicted outcome for normal mode (ok, number of streams deliverable before the fault) and for SingleStream. Every shape is realised from a catalogue of five library/xz-utils streams (empty one included) and read with xz.Reader in both modes; bytes and error class are compared with the prediction.",
    note="Trusted: TLC; internal/ref must give the same verdict as the specification on every realised file (else exit 2).",
    technique="TLA+ multi-stream model; TLC-generated file shapes with predictions replayed on the real reader"),
+ "C06": dict(cat="model_checking", design="§C06",
+   text="LzmaAlone.tla models the classic-LZMA writer contract (effective configuration, bytes accepted per Write, nospace on surplus, Close failing if fewer than Size, header size field = Size or all-ones iff no explicit size, marker mode). TLC checks NeverMoreThanSize/HeaderTruthful exhaustively and generates every configuration x history within the bounds with the predicted result of every call; each is replayed on lzma.Writer (rotating dictionary/look-ahead/matcher), the 13 header bytes and the sink are judged (reference decoder, lzma.Reader round trip). A second matrix covers all 225 property codes x both matchers x two dictionaries x data classes x four termination configurations with random write partitions. All recorded runs are validated by TLC (TraceLzmaAlone).",
+   note="Trusted: TLC, internal/ref .lzma parser/decoder. Contract matrix exhaustive within {Size in -1,0,1,2,5,300} x write lengths x <=3/4 writes; data contents are seeded samples.",
+   technique="TLA+ writer-contract spec; TLC-generated configurations and histories replayed on the real writer; recorded runs validated by TLC; reference decoder as content oracle"),
+ "C07": dict(cat="model_checking", design="§C07",
+   text="Writer side: library output for all 75 property triples with lc+lp<=4 x matchers x dictionary sizes x termination modes x data classes is decoded by the independent reference decoder (and xz-utils when installed) and the header is checked for truthfulness (properties, dictionary >= largest distance, size/marker mode). Reader side: LzmaGen (TLC -simulate, operations only) produces legal operation sequences that are serialised into .lzma streams for all 225 property codes, three termination modes, header dictionary sizes below 4096 / non powers of two, and zero-length content; every generated stream is validated by TLC at operation level (TraceLzma) and then read with lzma.Reader under three ReaderConfig.DictCap values; plus the xz-utils corpus and the repository's sample files.",
+   note="Trusted: TLC, internal/ref encoder/decoder (its streams are validated by TLC trace checking; xz-utils agreement on library output when installed).",
+   technique="TLA+ operation-layer spec in generation mode realised as .lzma streams; generator traces validated by TLC; real reader/writer compared with the reference codec"),
 }
 NOT_YET = "check not built yet in this round (framework under construction; see DESIGN.md §8 build order)"
 def main():
